@@ -23,7 +23,13 @@ pub fn blocks(thorough: bool) -> Vec<Block> {
             b.push(Block::new(Universe::new(&format!("U_adv({n})"), a, 1, 2, true), neutral.clone(), d32));
             b.push(Block::new(Universe::new(&format!("U_adv({n})"), a, 2, 2, false), vec![Cfg::new(0), Cfg::new(X | E)], "{}, x+e"));
         }
+        b.push(Block::new(Universe::new("U_adv(A_cons)", A_CONS, 1, 4, false), vec![Cfg::new(0), Cfg::new(X), Cfg::new(G | E)], "{}, x, g+e"));
+        b.push(Block::new(Universe::new("U_adv(A_gcm)", A_GCM, 3, 1, false), neutral.clone(), d32));
+        b.push(Block::new(Universe::new("U_adv(A_gcm)", A_GCM, 2, 2, false), vec![Cfg::new(0), Cfg::new(X | E)], "{}, x+e"));
     } else {
+        b.push(Block::new(Universe::new("U_adv(A_cons)", A_CONS, 1, 5, false), n1.clone(), "<=1 of {g,x,e,na,ne}"));
+        b.push(Block::new(Universe::new("U_adv(A_gcm)", A_GCM, 3, 2, false), n1.clone(), "<=1 of {g,x,e,na,ne}"));
+        b.push(Block::new(Universe::new("U_adv(A_gcm)", A_GCM, 2, 2, false), neutral.clone(), d32));
         b.push(Block::new(Universe::new("U_ab3{a,b}", &["a", "b"], 3, 0, false), neutral.clone(), d32));
         b.push(Block::new(Universe::new("U_abc2{a,b,c}", &["a", "b", "c"], 2, 0, true), neutral.clone(), d32));
         for (n, a) in [("A_meta", A_META), ("A_gc", A_GC), ("A_ws", A_WS), ("A_esc", A_ESC)] {
